@@ -234,9 +234,20 @@ class DictField(Field):
         """
         if not self._use_proxy:
             return value
-        if isinstance(value, dict):
-            value = {
-                self.key_field.to_python(cfg, key): self.value_field.to_python(cfg, val)  # type: ignore
-                for key, val in value.items()
-            }
-        return DictProxy(cfg, self, value)
+        if not isinstance(value, dict):
+            return DictProxy(cfg, self, value)
+
+        proxy = DictProxy(cfg, self)
+        for key, val in value.items():
+            try:
+                key = self.key_field.to_python(cfg, key)  # type: ignore
+                val = self.value_field.to_python(cfg, val)  # type: ignore
+            except Exception as exc:
+                raise ValidationError(
+                    cfg,
+                    self,
+                    "invalid dictionary entry: %s" % exc,
+                    ref_path=proxy._ref_path(key),
+                ) from exc
+            proxy[key] = val
+        return proxy
